@@ -31,6 +31,6 @@ def commitTypeMembers : List String := ["NO_COMMIT", "LINK_ONLY", "FULL"]
 /-- every key (or key prefix, marked `*`) of a signature pair in dds/introspect.py -/
 def sigKeys : List String := ["arg_*", "arg_context", "body_sig", "dep_*", "ext_dep_*", "ext_variable_*", "fun_dep_*", "function_input_hash", "function_inter_hash"]
 /-- the sentinel strings of dds_hash -/
-def hashSentinels : List String := ["__DDS_INT__", "__DDS_MISSING_ARG__", "__DDS_NONE__"]
+def hashSentinels : List String := ["__DDS_INT__", "__DDS_NONE__"]
 
 end Dds.Facts
